@@ -28,6 +28,9 @@ func runC08(p *eng.Prog, r *eng.Report, tier string) {
 	// C08.22 (= C04.4 / C10.16): the watcher of a transmit call expires the WRITE deadline only: a
 	// cancelled Send must not make the serve loop's blocked read fail (later elements would never be handled)
 	c04DeadlineAs(c, "C08.22")
+	// C08.23 (= C05.2 / C10.6, E-alias): the reader a handler is given is its own allocation: a reader that a
+	// handler kept from an earlier element must not be the object the current element is read through
+	closerFresh(c, "C08.23")
 	c08Handle(c)
 	c08Reader(c)
 	// C08.10 a received stream error is returned as such: its decoder consumes
